@@ -741,6 +741,21 @@ func genCoreCase(rng *Rng, maxOps int, variant string) (*CoreCase, error) {
 					// the RM names a node: placement of a pending ask by the RM (with or without a size change), or an
 					// update of a bound allocation that repeats / does not repeat its node
 					op.Node = g.pick(g.nodes)
+					if len(c.Steps) > 0 && rng.Chance(70) {
+						// prefer a key that is still pending: only then the update is a placement by the RM
+						var pend [][2]string
+						for _, oa := range c.Steps[len(c.Steps)-1].Obs.Apps {
+							for _, x := range oa.Requests {
+								if !x.Allocated && !x.Released {
+									pend = append(pend, [2]string{oa.ID, x.Key})
+								}
+							}
+						}
+						if len(pend) > 0 {
+							pk := pend[rng.Intn(len(pend))]
+							op.App, op.Key, a = pk[0], pk[1], pk[0]
+						}
+					}
 					if len(c.Steps) > 0 && rng.Chance(50) {
 						// same size as the stored ask: a pure placement
 						for _, oa := range c.Steps[len(c.Steps)-1].Obs.Apps {
@@ -836,39 +851,59 @@ func genGangDeep(rng *Rng, maxOps int) (*CoreCase, error) {
 		g.nextApp++
 		app := fmt.Sprintf("app-%d", g.nextApp)
 		g.apps = append(g.apps, app)
-		size := g.r.res(ntypes, 3, 6, false)
-		nph := 1 + rng.Intn(3)
-		total := CoreRes{}
-		for k, v := range size {
-			total[k] = v * int64(nph)
+		// one or two task groups; with two, group tg-a often has more real asks than placeholders so that its
+		// asks meet the placeholders of tg-b in the other-node fallback
+		tgs := []string{"tg-a"}
+		if rng.Chance(40) {
+			tgs = append(tgs, "tg-b")
 		}
-		g.gangApps[app] = []string{"tg-a"}
+		sizes := map[string]CoreRes{}
+		nphs := map[string]int{}
+		total := CoreRes{}
+		for _, tg := range tgs {
+			sizes[tg] = g.r.res(ntypes, 3, 6, false)
+			nphs[tg] = 1 + rng.Intn(3)
+			for k, v := range sizes[tg] {
+				total[k] += v * int64(nphs[tg])
+			}
+		}
+		size := sizes["tg-a"]
+		g.gangApps[app] = tgs
 		emit(CoreOp{Kind: "app_add", App: app, Queue: "root.q0", User: []string{"u1", "u2"}[rng.Intn(2)], Groups: []string{"g1"}, PhAsk: total, Hard: rng.Chance(50)})
 		gi := gangInfo{app: app, size: size}
 		// sometimes the real asks arrive before the placeholders
 		realFirst := rng.Chance(25)
 		addReal := func() {
-			nreal := 1 + rng.Intn(nph+1)
-			for i := 0; i < nreal; i++ {
-				r := CoreRes{}
-				for k, v := range size {
-					r[k] = max(1, v-int64(rng.Intn(3)))
+			for _, tg := range tgs {
+				nreal := 1 + rng.Intn(nphs[tg]+1)
+				if len(tgs) > 1 && tg == "tg-a" && rng.Chance(50) {
+					nreal = nphs[tg] + 1 + rng.Intn(2)
 				}
-				if rng.Chance(10) {
-					r[coreTypes[0]] = size[coreTypes[0]] + 1 // larger than the placeholder: must cancel it
+				for i := 0; i < nreal; i++ {
+					r := CoreRes{}
+					for k, v := range sizes[tg] {
+						r[k] = max(1, v-int64(rng.Intn(3)))
+					}
+					if rng.Chance(10) {
+						r[coreTypes[0]] = sizes[tg][coreTypes[0]] + 1 // larger than the placeholder: must cancel it
+					}
+					emit(CoreOp{Kind: "alloc", App: app, Key: g.newKey(app), Res: r, TaskGroup: tg, AgeSec: 3600, Prio: int32(rng.Intn(3))})
 				}
-				emit(CoreOp{Kind: "alloc", App: app, Key: g.newKey(app), Res: r, TaskGroup: "tg-a", AgeSec: 3600, Prio: int32(rng.Intn(3))})
 			}
 		}
 		if realFirst {
 			addReal()
 		}
-		for i := 0; i < nph; i++ {
-			k := g.newKey(app)
-			gi.phs = append(gi.phs, k)
-			emit(CoreOp{Kind: "alloc", App: app, Key: k, Res: size, Ph: true, TaskGroup: "tg-a", AgeSec: 3600})
+		nphAll := 0
+		for _, tg := range tgs {
+			for i := 0; i < nphs[tg]; i++ {
+				k := g.newKey(app)
+				gi.phs = append(gi.phs, k)
+				emit(CoreOp{Kind: "alloc", App: app, Key: k, Res: sizes[tg], Ph: true, TaskGroup: tg, AgeSec: 3600})
+				nphAll++
+			}
 		}
-		for i := 0; i < nph+1; i++ {
+		for i := 0; i < nphAll+1; i++ {
 			emit(CoreOp{Kind: "sched"})
 		}
 		if !realFirst {
@@ -880,7 +915,7 @@ func genGangDeep(rng *Rng, maxOps int) (*CoreCase, error) {
 					}
 					for _, al := range oa.Allocs {
 						if al.Ph {
-							for j := 1; j <= 4; j++ {
+							for j := 1; j <= 6; j++ {
 								c.World.DenyPairs = append(c.World.DenyPairs, [2]string{fmt.Sprintf("alloc-%d", g.nextKey+j), al.Node})
 							}
 						}
@@ -930,6 +965,14 @@ func genGangDeep(rng *Rng, maxOps int) (*CoreCase, error) {
 		}
 	}
 	for i := 0; i < 2; i++ {
+		emit(CoreOp{Kind: "sched"})
+	}
+	// let the state timers run out: an application that went Completing during the disturbances ends Completed here,
+	// where the life-cycle clauses about outstanding asks and live allocations are judged
+	if rng.Chance(60) {
+		for _, gi := range gangs {
+			emit(CoreOp{Kind: "fire_state", App: gi.app})
+		}
 		emit(CoreOp{Kind: "sched"})
 	}
 	return c, nil
